@@ -10,6 +10,7 @@ import Homonim.Model.Layout
 import Homonim.Model.Cli
 import Homonim.Model.Bands
 import Homonim.Model.StatsWindow
+import Homonim.Generated
 namespace Homonim
 open Homonim.Src
 
@@ -129,6 +130,11 @@ theorem src_C12_tags : fuseTags = tags_written ‚àß statsTags = tags_statsReads ‚
     window at the tile's corner, the union, then the tiles of every band that meet it - are those of the source text.  Taking one
     band's mask instead (`read_masks(1)`) does not translate. -/
 theorem src_C12_window_steps : windowStepsModel = statsWindow_steps := rfl
+
+/-- `KernelModel.__init__` (C02, C03, C19): every key of the model configuration (`create_config()`, read by introspection into
+    `Generated.lean`) is stored exactly as given - no value is re-interpreted on the way in (a threshold of 0 is 0, `None` is `None`) -
+    and the kernel shape passes through `validate_kernel_shape` -/
+theorem src_C19_model_config : kmodel_configStoredAsGiven = Generated.modelConfigKeys ‚àß kmodel_kernelValidated = true := ‚ü®by decide, rfl‚ü©
 
 /-! ### output names (C10, C19) -/
 
